@@ -105,6 +105,25 @@ def _summ(obj):
     return (k,)
 
 
+def _consume(obj, rec):
+    """What the owner of a decoded frame may do with it: change its tables /
+    arrays / byte arrays in place.  Later frames - the same bytes again
+    included - must still decode to what THEIR bytes say."""
+    k = boundary.kind_of(obj)
+    changed = False
+    if k == 'method':
+        for name in getattr(type(obj), '__slots__', ()):
+            v = getattr(obj, name, None)
+            if isinstance(v, (dict, list, bytearray)):
+                changed |= common.mutate_deep(v)
+    elif k == 'header':
+        h = getattr(getattr(obj, 'properties', None), 'headers', None)
+        if isinstance(h, dict):
+            changed |= common.mutate_deep(h)
+    if changed:
+        rec.count('decoded_frames_changed_by_consumer')
+
+
 def run_case(case, rec):
     if case['type'] == 'stream':
         _run_stream(case, rec)
@@ -153,6 +172,7 @@ def _run_stream(case, rec):
                            [f if len(f) < 5000 else f[:64]], 'tail': b''})
             return
         alone.append((u.value[1], _summ(u.value[2])))
+        _consume(u.value[2], rec)
     # tail independence of the first frame
     for tail in case['tails']:
         rec.ev()
@@ -192,6 +212,7 @@ def _run_stream(case, rec):
                               % (c, len(buf)), case)
                 return
             got.append((ch, _summ(g)))
+            _consume(g, rec)
             buf = buf[c:]
         if got != alone or buf:
             rec.violation('stream-sequence-differs',
